@@ -27,7 +27,7 @@ ASSUMPTIONS = [
     "coerced argument values are opaque (computed by the real coerce_argument_values per field node and parent type; C07 owns coercion)",
     "resolvers are worlds: a fixed hash of (seed, parent type, field, response path, canonical arguments); no other resolver behaviour is quantified",
     "introspection meta fields other than __typename and subscriptions are outside the generator (C15 / C17)",
-    "documents that make validate_ast raise (finding V2) never reach execution and are skipped here (reported by C05)",
+    "a document that makes validate_ast raise never reaches execution (none does on /repo HEAD after fixes V1/V2/V7; C05 reports such documents)",
 ]
 TRUSTED = [
     "corr/exec_common.py: world function (mirrored by PyGqlModel/World.lean), AST->JSON converter, canonicalisation, Python reference of the spec algorithm",
@@ -344,12 +344,15 @@ def run_corpus(ctx):
         return
     for p in sorted(d.glob("*.json")):
         data = json.loads(p.read_text())
-        ctx.count()
-        if not replay(ctx, {"input": data}):
-            ctx.fail("corpus:" + p.stem, "corpus case fails", data, kind="property")
+        for seed in [data.get("seed", 0)] + list(range(12)):      # the same request under several worlds
+            d2 = dict(data, seed=seed)
+            ctx.count()
+            if not replay(ctx, {"input": d2}, quiet=True):
+                ctx.fail("corpus:" + p.stem, "corpus case fails (response differs from the specification's algorithm)", d2, kind="property")
+                break
 
 
-def replay(ctx, data):
+def replay(ctx, data, quiet=False):
     inp = data.get("input", data)
     schema, holder, dump = X.build(inp["sdl"], inp.get("enum_kind", 0))
     c = Case()
@@ -374,7 +377,7 @@ def replay(ctx, data):
         schema2, holder2, dump2 = X.build(inp["sdl"], inp.get("enum_kind", 0))
         holder2.world = X.World(dump2, c.seed, c.mode)
         ok = ok and json.dumps(X.run_impl(schema2, c.text, c.variables, c.opname)) == json.dumps(c.impl)
-    if not ok:
+    if not ok and not quiet:
         print("impl:", json.dumps(c.impl)[:1500])
         print("spec:", json.dumps(spec)[:1500])
     return ok
